@@ -315,6 +315,11 @@ func newWorld(tag string, c *Case, mon *monitors) *world {
 		pk = append(pk, w.keyValue(kn, false))
 	}
 	w.probe = w.rt.NewArray(pk...)
+	// touch every object once before the layout snapshot: lazily materialised properties (function `prototype`) are
+	// judged by the laziness monitor, not here
+	for _, n := range worldObjects {
+		w.call("dump", w.objs[n])
+	}
 	if w.spec {
 		w.buildModel()
 	}
